@@ -51,6 +51,11 @@ func c02Policies() []*hist.PolicySpec {
 	lowRoot := mk("root-version-1", r0, 1, r0, tg([]string{"P0"}, []string{"T0"})) // 13
 	lowRoot.RootVersion = 1
 	ps = append(ps, lowRoot)
+	lowD := mk("deleg-version-1", r0, 1, r0, map[string]hist.FileSpec{ // 14
+		"targets":      {Rules: []hist.RuleSpec{mainRule([]string{"P0"}, 1)}, Signers: []string{"T0"}},
+		"protect-main": {Rules: []hist.RuleSpec{{Name: "inner-main", Patterns: []string{"git:" + refMain}, Principals: []string{"P2"}, Threshold: 1}}, Signers: []string{"P0"}, Version: 1},
+	})
+	ps = append(ps, lowD)
 	lowT := mk("targets-version-1", r0, 1, r0, map[string]hist.FileSpec{"targets": {Rules: []hist.RuleSpec{mainRule([]string{"P0"}, 1)}, Signers: []string{"T0"}, Version: 1}}) // 14
 	ps = append(ps, lowT)
 	return ps
@@ -126,7 +131,7 @@ func TestC02(t *testing.T) {
 	}()
 	scs := c02Scenarios(evid.Thorough())
 	col.Bound("events_after_prefix", scs[0].Depth)
-	col.Rule("depth-first enumeration of every sequence of <= %d events after [base policy; authorised push; feature push] over {15 successor policy states: root rotated and signed by {old},{new},{old,new},{}; root threshold raised to 2 signed by 1 or 2; primary rule file forged (signed by an untrusted key, authorising it), unsigned, legitimately changed; delegated file signed as required / by an untrusted key / dangling; root or rule-file version lowered; delegated file dropped by any later state} x {push to main by the authorised, an unknown, a later-authorised and a delegated principal}; at every node full, latest-only, from-entry verification, VerifyMergeable and LoadCurrentState are compared with the chain conditions of the statement (successor root signed by the predecessor's root threshold, own rule files properly signed, nothing unreachable, no rollback, no disappearing file). A class is (mode, implementation error class, oracle verdict)", scs[0].Depth)
+	col.Rule("depth-first enumeration of every sequence of <= %d events after [base policy; authorised push; feature push] over {16 successor policy states: root rotated and signed by {old},{new},{old,new},{}; root threshold raised to 2 signed by 1 or 2; primary rule file forged (signed by an untrusted key, authorising it), unsigned, legitimately changed; delegated file signed as required / by an untrusted key / dangling; root, primary or delegated rule-file version lowered; delegated file dropped by any later state} x {push to main by the authorised, an unknown, a later-authorised and a delegated principal}; at every node full, latest-only, from-entry verification, VerifyMergeable and LoadCurrentState are compared with the chain conditions of the statement (successor root signed by the predecessor's root threshold, own rule files properly signed, nothing unreachable, no rollback, no disappearing file). A class is (mode, implementation error class, oracle verdict)", scs[0].Depth)
 	col.Assume("a verification depends on a policy entry if it judges an entry under it (all conditions required) or the entry precedes such a state in the chain (successor conditions required); first policy state trusted on first use")
 	if e1Replayer(scs, col) {
 		return
